@@ -566,8 +566,56 @@ def check_build(res, fns, profile, h=None):
     res.transitions += sum(len(q.pc) for q, _ in results)
 
 
+# ---------------------------------------------------------------------------------------------
+# sequential vs parallel implementation: same MIR modulo the column iterator (C11, supplementary)
+# ---------------------------------------------------------------------------------------------
+def normalise_body(fn):
+    lines = []
+    for bb in sorted(fn.blocks, key=lambda b: int(b[2:])):
+        for st in fn.blocks[bb]:
+            st = re.sub(r"src/solvers/levmar/mod\.rs:\d+:\d+: \d+:\d+", "LOC", st)
+            st = re.sub(r"LevMarProblem<Model, MRHS, (true|false)>", "LevMarProblem<Model, MRHS, PAR>", st)
+            st = re.sub(r"LevMarProblem::<Model, MRHS, (true|false)>", "LevMarProblem::<Model, MRHS, PAR>", st)
+            lines.append(f"{bb}: {st}")
+    return lines
+
+
+def check_par_drift(res, fns_unused, profile, h=None):
+    mirs = em.dump_mir(features="parallel")
+    fns = mirse.load(mirs["on"])
+    names = ["set_params", "params", "residuals"] + [f"set_params::{{closure#{i}}}" for i in range(5)] + ["set_params::{closure#1}::{closure#0}", "residuals::{closure#0}", "jacobian::{closure#0}"]
+    compared = 0
+    for nm in names:
+        pat = r"^fn levmar::<impl at src/solvers/levmar/mod\.rs:\d+:\d+: \d+:\d+>::" + re.escape(nm) + r"\("
+        seq = [f for hd, f in fns.items() if re.search(pat, hd) and "MRHS, false>" in hd.split(") ->")[0].split("_1:")[1].split(",  _2")[0] if "_1:" in hd]
+        allf = [(hd, f) for hd, f in fns.items() if re.search(pat, hd)]
+        # the two impls differ in the const generic of the receiver type; closures mention it in their environment type
+        groups = {}
+        for hd, f in allf:
+            key = re.search(r"impl at src/solvers/levmar/mod\.rs:(\d+)", hd).group(1)
+            groups.setdefault(key, []).append(f)
+        impls = sorted(groups.items(), key=lambda kv: int(kv[0]))
+        impls = [(k, v) for k, v in impls if len(v) == 1]
+        if len(impls) != 2:
+            if nm in ("set_params", "params", "residuals", "jacobian::{closure#0}"):
+                res.tool_errors.append(f"parallel drift: expected two MIR bodies for {nm}, found {len(impls)}")
+            continue
+        a, b = normalise_body(impls[0][1][0]), normalise_body(impls[1][1][0])
+        compared += 1
+        res.obligations += 1
+        if a == b:
+            res.discharged += 1
+            if len(res.samples) < 8:
+                res.samples.append({"obligation": f"MIR of the sequential and the parallel `{nm}` are identical modulo the PARALLEL const generic", "verdict": "identical", "statements": len(a)})
+        else:
+            diff = next((f"{x} | {y}" for x, y in zip(a, b) if x != y), f"length {len(a)} vs {len(b)}")
+            add_structural_violation(res, f"pardrift:{nm}", f"the sequential and the parallel implementation of `{nm}` differ: {diff[:300]}", native=None)
+    res.functions.append(f"<LevMarProblem<_,_,false/true> as LeastSquaresProblem>::{{set_params, params, residuals}} and the closures of set_params/residuals/jacobian: {compared} pairs of MIR bodies compared (--features parallel)")
+
+
 M_PROPS = {
     "C04": ["fit"],
+    "C11": ["par_drift"],
     "C08": ["try_calculate", "fit", "fit_with_statistics", "build"],
     "C09": ["fit", "fit_with_statistics"],
     "C12": ["try_calculate", "fit_with_statistics"],
@@ -593,6 +641,8 @@ def run(prop, tier, seed):
         for profile in ("on", "off"):
             fns = mirse.load(mirs[profile])
             for item in M_PROPS[prop]:
+                if item == "par_drift" and profile == "off":
+                    continue
                 CHECKS[item](res, fns, f"overflow-checks={profile}", h)
     except Unsupported as e:
         raise ToolFailure(f"MIR interpreter: {e}")
@@ -605,4 +655,4 @@ def run(prop, tier, seed):
     }
 
 
-CHECKS = {"try_calculate": check_try_calculate, "fit": check_fit, "fit_with_statistics": check_fit_with_statistics, "build": check_build}
+CHECKS = {"try_calculate": check_try_calculate, "fit": check_fit, "fit_with_statistics": check_fit_with_statistics, "build": check_build, "par_drift": check_par_drift}
